@@ -434,7 +434,8 @@ func TestVerifC02Composite(t *testing.T) {
 	r.Bound("request_rule_kinds_service_slot", len(svcKinds)-1)
 	r.Bound("safety_states_per_hashprefix_filter", 3)
 	r.Bound("safe_search_states", len(ssStates))
-	r.Bound("hosts", c02Hosts)
+	hosts := vrt.Pick(r, c02Hosts, c02HostsThorough)
+	r.Bound("hosts", hosts)
 	r.Bound("qtypes", []string{"A", "AAAA", "HTTPS", "TXT"})
 
 	run := func(c c02ACase) []vrt.Finding { return c02ARun(r, rig, c) }
@@ -448,7 +449,7 @@ func TestVerifC02Composite(t *testing.T) {
 				for i := 0; i < nHash; i++ {
 					cfg.Hash[i] = hashStates[sf[i]]
 				}
-				for _, h := range c02Hosts {
+				for _, h := range hosts {
 					for _, qt := range c02QTypes {
 						emit(c02ACase{Cfg: cfg, Host: h, QType: qt})
 					}
@@ -467,7 +468,7 @@ func TestVerifC02Composite(t *testing.T) {
 		vrt.Odometer([]int{3, 3, 3, 3, 2}, func(ri []int) {
 			c02ReqAssignments(kinds, maxReq, func(req [nSlots]int) {
 				cfg := c02Cfg{Req: req, Resp: [nSlots]int{ri[0], ri[1], ri[2], ri[3]}, RespTarget: ri[4]}
-				for _, h := range c02Hosts {
+				for _, h := range hosts {
 					for _, qt := range c02QTypes {
 						for _, cn := range []bool{false, true} {
 							emit(c02ACase{Cfg: cfg, Host: h, QType: qt, CNAME: cn, Resp: true})
